@@ -14,6 +14,7 @@ import (
 	"github.com/rqlite/rqlite/v10/command/proto"
 	"github.com/rqlite/rqlite/v10/internal/rarchive/flate"
 	"github.com/rqlite/rqlite/v10/internal/rsync"
+	"github.com/rqlite/rqlite/v10/internal/verifhook"
 	"github.com/rqlite/rqlite/v10/queue"
 )
 
@@ -516,6 +517,7 @@ func (s *Service) leaderLoop() (chan struct{}, chan struct{}) {
 		}()
 
 		for {
+			verifhook.Yield("cdc.leader.loop")
 			select {
 			case <-stop:
 				return
